@@ -3,9 +3,12 @@ package c06
 
 import (
 	"fmt"
+	"math/rand"
 	"testing"
 	"time"
 
+	"verif/harness/gen"
+	"verif/harness/model"
 	"verif/harness/oracle"
 	"verif/harness/scen"
 	"verif/harness/sysrun"
@@ -33,4 +36,64 @@ func TestLifecycle(t *testing.T) {
 	sub := vf.Cur().Sub("lifecycle", fmt.Sprintf(rule, "short timers, groups emptied by resolved notifications and re-created by re-fires, dispatcher maintenance every 1s, suppression, reloads"), 20)
 	sysrun.Run(t, "C06", sub, sysrun.Family{Name: "life", Quick: 120, Thorough: 6000, NonTrivial: nt,
 		Opt: scen.GenOpt{Horizon: 90 * time.Minute, Depth: 2, Fanout: 2, ShortTimers: true, NearTicks: true, Silences: true, Reloads: true, Probes: true}}, checkers)
+}
+
+// recreateDuringSweep: a group is emptied by its resolved notification (destroyed), the maintenance
+// sweep that finds it is held between its destroyed-check and the removal (yield point
+// maint.beforeDelete), and the alert fires again inside that window, so ingestion swaps a fresh
+// group into the map; later a second alert of the same group arrives.
+func recreateDuringSweep(r *rand.Rand) *scen.Scenario {
+	gw := gen.Pick(r, []time.Duration{time.Second, 10 * time.Second})
+	gi := gen.Pick(r, []time.Duration{5 * time.Second, 30 * time.Second})
+	ri := 10 * time.Minute
+	gb := []string{"alertname"}
+	cfg := &scen.Config{ResolveTimeout: 5 * time.Minute,
+		Route:     &model.RouteSpec{Receiver: "r0", GroupBy: &gb, GroupWait: &gw, GroupInterval: &gi, RepeatInterval: &ri},
+		Receivers: []scen.Receiver{{Name: "r0", Integs: []scen.Integ{{SendResolved: true}}}}}
+	s := &scen.Scenario{Config: cfg, Duration: 15 * time.Minute, DispatchMaint: time.Second,
+		Yields: []scen.YieldRule{{Point: "maint.beforeDelete", Sleep: gen.Pick(r, []time.Duration{2 * time.Second, 3500 * time.Millisecond}), Prob: 1},
+			{Point: "group.afterLoad", Sleep: time.Millisecond, Prob: 0.3}, {Point: "group.beforeStore", Sleep: time.Millisecond, Prob: 0.3}}}
+	l1 := model.Labels{"alertname": "A", "sev": "crit"}
+	l2 := model.Labels{"alertname": "A", "sev": "warn"}
+	t0 := time.Duration(1+r.Intn(20))*time.Second + time.Duration(1+r.Intn(998))*time.Millisecond
+	far := 30 * time.Minute
+	zero := time.Duration(0)
+	s.Ops = append(s.Ops, scen.Op{At: t0, Kind: "alerts", Alerts: []scen.PostSpec{{Labels: l1, EndOff: &far}}})
+	k := 1 + r.Intn(2)
+	resolveAt := t0 + gw + time.Duration(k)*gi + gi/2
+	s.Ops = append(s.Ops, scen.Op{At: resolveAt, Kind: "alerts", Alerts: []scen.PostSpec{{Labels: l1, EndOff: &zero}}})
+	tick := t0 + gw + time.Duration(k+1)*gi // the flush that reports the resolution and destroys the group
+	// the sweep runs on whole seconds; it finds the destroyed group at the first second after the tick and is held 2-3.5 s
+	refire := tick.Truncate(time.Second) + time.Second + gen.Pick(r, []time.Duration{300 * time.Millisecond, 900 * time.Millisecond, 1700 * time.Millisecond})
+	s.Ops = append(s.Ops, scen.Op{At: refire, Kind: "alerts", Alerts: []scen.PostSpec{{Labels: l1, EndOff: &far}}})
+	s.Ops = append(s.Ops, scen.Op{At: refire + 8*time.Second, Kind: "alerts", Alerts: []scen.PostSpec{{Labels: l2, EndOff: &far}}})
+	for _, d := range []time.Duration{12 * time.Second, 50 * time.Second, 3 * time.Minute} {
+		s.Ops = append(s.Ops, scen.Op{At: refire + d, Kind: "probe"})
+	}
+	return s
+}
+
+func TestRecreateDuringSweep(t *testing.T) {
+	sub := vf.Cur().Sub("recreate-during-sweep", fmt.Sprintf(rule, "targeted, with yield hooks: the maintenance sweep is held between its destroyed-check and the removal of an emptied group while the alert re-fires and ingestion re-creates the group; afterwards a second alert joins; the group must stay single, complete and visible in the API"), 20)
+	ck := map[string]sysrun.Checker{"group-map": oracle.GroupMapInvariants, "obligations": oracle.Obligations}
+	for k, v := range checkers {
+		ck[k] = v
+	}
+	sysrun.Run(t, "C06", sub, sysrun.Family{Name: "sweep", Quick: 100, Thorough: 4000, Gen: recreateDuringSweep,
+		NonTrivial: func(c map[string]int64) bool { return c["internal_probes"] > 0 && c["members_required"] > 0 }}, ck)
+}
+
+func TestYieldedLifecycle(t *testing.T) {
+	sub := vf.Cur().Sub("yielded-lifecycle", fmt.Sprintf(rule, "generated lifecycle scenarios with random virtual-time sleeps at all dispatcher yield points (worker receive, after group load, before group store, sweep before delete, flush before delete)"), 20)
+	ck := map[string]sysrun.Checker{"group-map": oracle.GroupMapInvariants, "obligations": oracle.Obligations}
+	for k, v := range checkers {
+		ck[k] = v
+	}
+	sysrun.Run(t, "C06", sub, sysrun.Family{Name: "yield", Quick: 100, Thorough: 4000, NonTrivial: nt,
+		Opt: scen.GenOpt{Horizon: 60 * time.Minute, Depth: 1, Fanout: 2, ShortTimers: true, NearTicks: true, Probes: true, MaxLabelSets: 5},
+		Mutate: func(r *rand.Rand, s *scen.Scenario) {
+			s.DispatchMaint = time.Second
+			s.Yields = []scen.YieldRule{{Point: "maint.beforeDelete", Sleep: 2500 * time.Millisecond, Prob: 0.7}, {Point: "group.afterLoad", Sleep: 3 * time.Millisecond, Prob: 0.2},
+				{Point: "group.beforeStore", Sleep: 3 * time.Millisecond, Prob: 0.2}, {Point: "flush.beforeDelete", Sleep: 400 * time.Millisecond, Prob: 0.3}}
+		}}, ck)
 }
